@@ -98,7 +98,7 @@ def gen_macs():
                     if mm:
                         frags.append(literal(mm.group(1)))
                         continue
-                    mm = re.fullmatch(r"&?\[(\w+)\]", a) or re.fullmatch(r"&?(\w+)(?:\.(\w+)\(\))?", a)
+                    mm = re.fullmatch(r"&?\[(\w+)\]", a) or re.fullmatch(r"&?\*?(\w+)(?:\[\.\.\])?(?:\.(\w+)\(\))?", a)
                     if not mm or (mm.lastindex and mm.lastindex >= 2 and mm.group(2) and mm.group(2) not in VIEWS):
                         raise X.Broken("%s fn %s: fragment %r of %s.update is none of: byte literal, identifier, [identifier], identifier.view()" % (rel, s["fn"][0], a, s["recv"]))
                     v = coq_ident(mm.group(1))
@@ -115,7 +115,7 @@ def gen_macs():
                     return mm.start() if mm else len(fn_text)
                 raw_names = {}
                 for a in s["args"]:
-                    mm = re.fullmatch(r"&?\[(\w+)\]", a) or re.fullmatch(r"&?(\w+)(?:\.(\w+)\(\))?", a)
+                    mm = re.fullmatch(r"&?\[(\w+)\]", a) or re.fullmatch(r"&?\*?(\w+)(?:\[\.\.\])?(?:\.(\w+)\(\))?", a)
                     if mm and not a.startswith('b"'):
                         raw_names[coq_ident(mm.group(1))] = mm.group(1)
                 params.sort(key=lambda v: first_pos(raw_names.get(v, v)))
